@@ -11,6 +11,32 @@ import (
 )
 
 func main() {
+	if len(os.Args) > 1 && os.Args[1] == "check" {
+		fs := flag.NewFlagSet("check", flag.ExitOnError)
+		o := checkOpts{}
+		fs.StringVar(&o.repo, "repo", "/repo", "repository")
+		fs.StringVar(&o.verif, "verif", "/verif", "verif directory")
+		fs.StringVar(&o.prop, "property", "", "property id")
+		fs.StringVar(&o.tier, "tier", "quick", "quick|thorough")
+		fs.IntVar(&o.timeout, "timeout", 0, "per-obligation timeout")
+		fs.IntVar(&o.workers, "j", 16, "workers")
+		fs.BoolVar(&o.writeLedger, "write-ledger", false, "rewrite the ledger from this run")
+		fs.BoolVar(&o.verbose, "v", false, "verbose")
+		fs.Parse(os.Args[2:])
+		if t := os.Getenv("VERIF_TIER"); t != "" && o.tier == "" {
+			o.tier = t
+		}
+		if s := os.Getenv("VERIF_SEED"); s != "" {
+			fmt.Sscanf(s, "%d", &o.seed)
+		}
+		if o.timeout == 0 {
+			o.timeout = 10
+			if o.tier == "thorough" {
+				o.timeout = 60
+			}
+		}
+		os.Exit(runCheck(o))
+	}
 	repo := flag.String("repo", "/repo", "repository root")
 	funcs := flag.String("func", "", "comma-separated substrings of functions to verify (default all under contract)")
 	prop := flag.String("property", "", "property id")
